@@ -369,6 +369,32 @@ func runC14(r *vf.Run) {
 		gbs := &pb.QueryRequest{Queries: []*pb.Query{{Expr: a.ToProto(), GroupBy: make([]string, 3000)}, {Expr: a.ToProto(), GroupBy: []string{"", cols[0], ""}}}}
 		addMsg("many/3000-empty-groupby-columns", "many-queries", gbs)
 	}
+	// 2c. operators with every operand count up to 140 and around powers of two (fixed-size buffers somewhere?)
+	for _, n := range append(seqInts(0, 140), 255, 256, 257, 511, 512, 513, 1023, 1024, 1025, 4096) {
+		for _, op := range []byte{'&', '|'} {
+			e := &oracle.Expr{Op: op}
+			for k := 0; k < n; k++ {
+				e.Kids = append(e.Kids, []*oracle.Expr{a, b, c, oracle.Not(a)}[k%4])
+			}
+			var pe *pb.Query_Expression
+			if n == 0 {
+				if op == '&' {
+					pe = &pb.Query_Expression{Value: &pb.Query_Expression_And_{And: &pb.Query_Expression_And{}}}
+				} else {
+					pe = &pb.Query_Expression{Value: &pb.Query_Expression_Or_{Or: &pb.Query_Expression_Or{}}}
+				}
+			} else {
+				pe = e.ToProto()
+			}
+			addMsg(fmt.Sprintf("arity/%c%d", op, n), "operand-count", &pb.QueryRequest{Queries: []*pb.Query{{Expr: pe}, {Expr: &pb.Query_Expression{Value: &pb.Query_Expression_Not_{Not: &pb.Query_Expression_Not{Expr: pe}}}, GroupBy: []string{cols[0]}}}})
+		}
+	}
+	// 2d. complete, evaluable expressions whose group-by list names unknown columns (the request fails as a whole;
+	// what it leaves behind must not disturb the group-by probes that follow)
+	for i, gb := range [][]string{{"nosuch"}, {cols[0], "nosuch"}, {""}, {"nosuch", cols[0]}, {cols[0], cols[0], "NOSUCH"}} {
+		addMsg(fmt.Sprintf("unknown-groupby/%d", i), "unknown-groupby", &pb.QueryRequest{Queries: []*pb.Query{{Expr: a.ToProto(), GroupBy: gb}}})
+		addMsg(fmt.Sprintf("unknown-groupby/%d-second", i), "unknown-groupby", &pb.QueryRequest{Queries: []*pb.Query{{Expr: b.ToProto(), GroupBy: []string{cols[0]}}, {Expr: oracle.Not(a).ToProto(), GroupBy: gb}}})
+	}
 	// 3. deep nesting up to the decoder's limit
 	for _, depth := range []int{100, 2000, 4900, 5100, 9000} {
 		e := &pb.Query_Expression{Value: &pb.Query_Expression_Eq{Eq: &pb.Query_Expression_Equal{Column: cols[0], Value: "x"}}}
@@ -609,4 +635,12 @@ func mutateWire(rng *rand.Rand, valid []byte) []byte {
 		}
 	}
 	return b
+}
+
+func seqInts(from, to int) []int {
+	var l []int
+	for i := from; i <= to; i++ {
+		l = append(l, i)
+	}
+	return l
 }
